@@ -121,7 +121,9 @@ def gen_spec(r, idx, transport=None):
             s, m = r.pick(cand)
             k = max(i for i, c in enumerate(m["name"]) if c.isupper())
             twin = m["name"][:k] + m["name"][k].lower() + m["name"][k + 1:]
-            if not any(x["name"] == twin for sv in spec["services"] for x in sv["methods"]):
+            # the capital must follow a lower-case letter, so that the two names have different python method
+            # names (`get_book` / `getbook`); `A1B2` / `A1b2` would both be `a1b2` (one python name: C12's subject)
+            if m["name"][k - 1].islower() and not any(x["name"] == twin for sv in spec["services"] for x in sv["methods"]):
                 nmsg += 1
                 msg = gen_message(r, f"Req{nmsg}Twin")
                 spec["messages"].append(msg)
